@@ -42,10 +42,23 @@ ConfigsOf ==
   \cup UNION { { [p |-> 6, n |-> n, ints |-> is, resets |-> rs, inr |-> inp, bd |-> b] :
               is \in {{}, {0}, {7}}, rs \in {{}, {2}}, inp \in Inputs, b \in { x \in Boards : x.di1 # 0 } } : n \in {9, 40} }
 
+\* long runs: budgets beyond 2^16 cycles with events scheduled around 255/256 and 65535/65536 (spinning programs), and budgets near the
+\* largest 32-bit number for programs that halt by themselves
+DefaultBoard == CHOOSE x \in Boards : x.di1 = 0
+LongN == IF Tier = "quick" THEN 3000 ELSE 66000
+LongConfigs ==
+  { [p |-> p, n |-> LongN, ints |-> is, resets |-> rs, inr |-> <<200, 1, 2, 255>>, bd |-> DefaultBoard] :
+      p \in (IF Tier = "quick" THEN {1, 5} ELSE {1, 4, 5}),
+      is \in (IF Tier = "quick" THEN {{255, LongN - 464}} ELSE {{}, {255, 65536}, {65535}, {256, 65999}}),
+      rs \in (IF Tier = "quick" THEN {{256, LongN - 463}} ELSE {{}, {256, 65537}, {65535}}) }
+  \cup { [p |-> p, n |-> n, ints |-> is, resets |-> {}, inr |-> <<0, 0, 0, 0>>, bd |-> DefaultBoard] :
+      p \in {2, 3}, n \in {300, 65536, 2147483647}, is \in {{}, {7}} }
+AllConfigs == ConfigsOf \cup LongConfigs
+
 MC(c) == [inr |-> [k \in 0..3 |-> c.inr[k + 1]], di1 |-> c.bd.di1, temp |-> c.bd.temp, j1 |-> c.bd.j1, j2 |-> c.bd.j2,
           ai1 |-> c.bd.ai1, ai2 |-> c.bd.ai2, uio1 |-> c.bd.uio1, uio2 |-> c.bd.uio2, uio3 |-> c.bd.uio3]
 \* the machine is built in a first step (so that TLC's workers share the construction)
-Init == /\ cf \in ConfigsOf /\ m = 0 /\ i = -1 /\ fin = FALSE
+Init == /\ cf \in AllConfigs /\ m = 0 /\ i = -1 /\ fin = FALSE
 Next == \/ /\ i = -1
            /\ m' = RunnerStart(MC(cf), Images[cf.p], 16, -1)
            /\ i' = 0 /\ fin' = (cf.n = 0) /\ cf' = cf
